@@ -83,7 +83,9 @@ func (rows *leveldbRows) ascendRange(rng *util.Range, iterator RowIterator) {
 			break
 		}
 	}
-	if err := it.Error(); err != nil {
+	if err := it.Error(); err != nil && err != leveldb.ErrClosed {
+		// ErrClosed: the table was cleared (Clear closes and replaces the database) while a scan that had given up
+		// the table lock to stream a batch was still holding this iterator. All rows are gone; the scan just ends.
 		panic(err)
 	}
 }
